@@ -54,7 +54,9 @@ def one(ctx, data, meta=None):
                     if not sk or not pr or 'ok' not in pr: continue
                     if 'ok' not in sk:
                         ctx.diff(f'structural machine raises on {v}', case_payload(data, html=hi, dup=dup, merged_under_html=hm), 'returns', sk); good = False; continue
-                    d = first_diff(nest_map(pr['ok'], facts), nest_map(sk['ok'], facts))
+                    fa, fb = nest_map(pr['ok'], facts), nest_map(sk['ok'], facts)
+                    pk.wild_copy(fa, fb)
+                    d = first_diff(fa, fb)
                     if d:
                         ctx.diff(f'structure of {v}_pars vs the structural machine', case_payload(data, html=hi, dup=dup, merged_under_html=hm), d[1], d[2], path=d[0]); good = False
     parts = src.parts_of(data)
